@@ -2,6 +2,7 @@
 """tools/seedmeta.py <seed-id> <property> "<one line description>"  -- writes seeded/<seed-id>/meta.json from the recorded check output"""
 import json, re, sys, os, glob
 sid, prop, desc = sys.argv[1], sys.argv[2], sys.argv[3]
+note = sys.argv[4] if len(sys.argv) > 4 else None
 d = f'/verif/seeded/{sid}'
 patch = open(f'{d}/patch.diff').read()
 files = re.findall(r'^\+\+\+ b/(.*)$', patch, re.M)
@@ -21,5 +22,7 @@ meta = {'id': sid, 'property': prop, 'origin': 'fresh sub-agent given only the p
         'existing_tests': 'pass (as reported by the agent: full suite, only the baseline always-fail tests fail)',
         'checks': caught, 'detected': any(v['exit'] == 1 for v in caught.values()),
         'detected_by_proof_part': any(not o.split('/')[0].endswith('.bounded') for v in caught.values() for o in v['obligations'])}
+if note:
+    meta['history'] = note
 json.dump(meta, open(f'{d}/meta.json', 'w'), indent=1)
 print(json.dumps({k: meta[k] for k in ('id', 'detected', 'detected_by_proof_part')}))
